@@ -5,7 +5,8 @@ A *job* is {id, wat | hex, target, traces:[[{fn,args:[int],tys:[ty],rtys:[ty]}..
             ext:[{mod,name,params:[ty],ty:result type or "",rets:[int]}]}.
 Every trace is run on a fresh instance.  The observation of a trace is a list: element 0 = instantiation
 (incl. start function), element k = call k:
-    {outcome: "value" | "trap" | "exc:<Class>" | "crash:<signal>" | "timeout", msg, ret:[[limb..]..],
+    {outcome: "value" | "trap" | "exc:<Class>" | "crash:<signal>" | "timeout" | "badvalue" | "value-from-void",
+     msg, ret:[[limb..]..],
      state: bool, glob:[{name,v}], mem:[[address,byte]..] (non-zero cells), pages, hascalls, calls:[{name,args}]}
 A native trap kills the process: the parent notices the dead child, records 'crash' for the call that was
 running and restarts a child for the remaining traces (a dead child is an observation, not a failure).
@@ -142,7 +143,10 @@ def child(path):
                 try:
                     r = inst.exports[c["fn"]](*[int(a) for a in c["args"]])
                     rs = [] if r is None else (list(r) if isinstance(r, (tuple, list)) else [r])
-                    if len(rs) != len(c["rtys"]) or not all(_value_ok(v, ty) for v, ty in zip(rs, c["rtys"])):
+                    if not c["rtys"] and rs:
+                        # a function without results handed a value to its caller
+                        o = _observe("value-from-void", repr(r), [], inst, job, calls)
+                    elif len(rs) != len(c["rtys"]) or not all(_value_ok(v, ty) for v, ty in zip(rs, c["rtys"])):
                         o = _observe("badvalue", repr(r), [], inst, job, calls)
                     else:
                         o = _observe("value", "", [limbs(v, BITS[ty] // 8) for v, ty in zip(rs, c["rtys"])], inst, job, calls)
